@@ -4,6 +4,7 @@ import (
 	"fmt"
 	"net/netip"
 	"strings"
+	"unicode/utf8"
 
 	"pgregory.net/rapid"
 )
@@ -35,6 +36,23 @@ type plan struct {
 	Target    target
 	BadTarget string // raw HTTP client only: a request-target without a valid port
 	Variant   httpVariant
+
+	// round 6: HTTP proxy behind TLS (Proto "http" only)
+	TLS     bool   // server EnableTLS; the clients speak TLS (repo: UseTLS, RootCAs, ServerName; harness: crypto/tls)
+	TLSReq  bool   // server RequireAndVerifyClientCert with ClientCAs = the trusted client root
+	TLSCert string // client certificate: "" none, "valid" (leaf + intermediate under ClientCAs), "untrusted" (same names, other keys)
+	TLSCN   string // common name of the client certificate's leaf
+	TLSName string // name the client verifies the server certificate against (one of tlsServerNames)
+	TLS12   bool   // harness client only: offer at most TLS 1.2
+	TLSFunc bool   // certificates handed over through GetCertificate / GetClientCertificate instead of the lists
+
+	// round 6: SOCKS5 greeting shapes (raw client)
+	MethodDup int // further occurrences of the server's method in Methods besides WantPos
+	Pipeline  int // 0: wait for every answer; 1: greeting, sub-negotiation and request (+early data) in one write; 2: in writes of their own, without waiting
+
+	// round 6: Host forms (raw HTTP client; the spelling of the target itself is in Target.Spell / Target.NoPort)
+	HostForm string // "" CONNECT authority-form; "origin" / "absolute": a non-CONNECT request whose target comes from Host / the absolute URI
+	HostVerb string // method of the non-CONNECT request
 
 	// onward connection outcome decided by the "relay"
 	Abort bool
@@ -336,6 +354,19 @@ func genTarget(rt *rapid.T, proto string) target {
 				t.Domain = blob(n, seed, alphaHost)
 			}
 		}
+		// round 6: names that begin like a number or like an IPv6 group, and names that look like a
+		// literal without being one; a server has to hand them on as names, byte for byte
+		switch k := rapid.IntRange(0, 7).Draw(rt, "domain-lead"); {
+		case k == 0 && am < 3:
+			t.Domain = string(hexLead[int(seed%uint64(len(hexLead)))]) + t.Domain[1:]
+		case k == 1 && am < 2:
+			t.Domain = rapid.SampledFrom(literalLookalikes).Draw(rt, "lookalike")
+		}
+		if proto == "http" {
+			if _, err := netip.ParseAddr(t.Domain); err == nil {
+				t.Domain = "x" + t.Domain[1:]
+			}
+		}
 	case k < 7:
 		t.Kind = "v4"
 		var a [4]byte
@@ -348,13 +379,17 @@ func genTarget(rt *rapid.T, proto string) target {
 		t.Kind = "v6"
 		var a [16]byte
 		fill(a[:], rapid.Uint64().Draw(rt, "ip-seed"))
-		switch rapid.IntRange(0, 5).Draw(rt, "ip-special") {
+		switch rapid.IntRange(0, 7).Draw(rt, "ip-special") {
 		case 0:
 			a = [16]byte{}
 		case 1:
 			a = [16]byte{15: 1}
 		case 2:
 			a = [16]byte{0: 0x20, 1: 0x01, 2: 0x0d, 3: 0xb8, 15: 3} // compresses to 2001:db8::3
+		case 3: // the literals people actually type: every one begins with a different kind of character
+			a = netip.MustParseAddr(rapid.SampledFrom(namedV6).Draw(rt, "ip6-named")).As16()
+		case 4: // every leading hex digit, letters as well as digits
+			a[0] = a[0]&0x0f | byte(rapid.IntRange(0, 15).Draw(rt, "ip6-lead"))<<4
 		}
 		if a[10] == 0xff && a[11] == 0xff {
 			a[0] |= 0x20
@@ -366,8 +401,22 @@ func genTarget(rt *rapid.T, proto string) target {
 		fill(a[12:], rapid.Uint64().Draw(rt, "ip-seed"))
 		t.IP = netip.AddrFrom16(a)
 	}
+	if proto == "http" && t.Kind != "domain" && t.Kind != "v4" {
+		// how the literal is spelled on the wire by the harness client (RFC 4291 section 2.2 allows all of them)
+		t.Spell = rapid.SampledFrom([]string{"", "", "expanded", "nozip", "upper", "v4tail"}).Draw(rt, "ip6-spell")
+	}
 	return t
 }
+
+// hexLead: first characters shared by host names, decimal numbers and IPv6 groups.
+const hexLead = "0123456789abcdefABCDEF"
+
+// namedV6 are the IPv6 literals named in the round-6 brief plus their neighbours.
+var namedV6 = []string{"fd00::1", "fe80::1", "ff02::1", "abcd::", "::1", "2001:db8::1", "::", "a::", "b::b", "c0de::", "dead:beef::", "e::1", "f::", "1::", "9:9::9", "fd12:3456:789a:1::1", "64:ff9b::102:304"}
+
+// literalLookalikes are host names (RFC 3986 reg-name) that share their beginning with an IP literal
+// but are none: a server has to hand them on as names, byte for byte.
+var literalLookalikes = []string{"fd00", "fe80", "ff02", "abcd", "f", "a", "1e100.net", "4chan.org", "3com.example", "cafe.babe", "dead.beef", "face.b00c", "1.2.3.4.5", "1.2.3.4a", "a1.2.3.4", "0x7f.example", "fd00.example", "fe80-1", "ff02.1", "db8", "2001.db8", "127.0.0.1.nip.example", "c", "e", "d0", "b-1", "0a", "9z", "1-1"}
 
 var fragSizes = []int{1, 2, 3, 4, 5, 7, 16, 17, 64, 255, 256, 300, 1000, 0}
 
@@ -528,9 +577,35 @@ func genPlanOf(rt *rapid.T, protos []string) plan {
 		}
 		if p.WantPos >= 0 {
 			p.Methods[p.WantPos] = want
+			// round 6: the server's method offered more than once (some positions, or every position)
+			if n >= 2 && rapid.IntRange(0, 3).Draw(rt, "method-dup") == 0 {
+				k := rapid.SampledFrom([]int{1, 1, 2, 3, n - 1}).Draw(rt, "method-dups")
+				for i := 0; i < k && i < n; i++ {
+					pos := int(pr.next() % uint64(n))
+					if k == n-1 {
+						pos = i + 1
+					}
+					if p.Methods[pos] != want {
+						p.Methods[pos] = want
+						p.MethodDup++
+					}
+				}
+				for i, m := range p.Methods {
+					if m == want {
+						p.WantPos = i
+						break
+					}
+				}
+			}
+		}
+		// round 6: a client that knows its server does not wait for the method selection (and the RFC 1929
+		// status) before it sends the next message: the segmentation of the handshake bytes is not the
+		// client's to choose (TCP), so whatever follows the greeting has to be parsed as the next message
+		if rapid.IntRange(0, 2).Draw(rt, "pipeline-mode") == 0 {
+			p.Pipeline = rapid.IntRange(1, 2).Draw(rt, "pipeline")
 		}
 		p.Pushy = rapid.IntRange(0, 2).Draw(rt, "pushy") == 0
-		if p.Pushy && p.SrvAuth && rapid.Bool().Draw(rt, "s5-retry") {
+		if p.Pushy && p.SrvAuth && p.Pipeline == 0 && rapid.Bool().Draw(rt, "s5-retry") {
 			n := rapid.SampledFrom([]int{1, 2, 9, 12}).Draw(rt, "s5-retries")
 			seed := rapid.Uint64().Draw(rt, "s5-retry-seed")
 			for i := 0; i < n; i++ {
@@ -555,7 +630,27 @@ func genPlanOf(rt *rapid.T, protos []string) plan {
 		}
 		if rapid.IntRange(0, 11).Draw(rt, "badtarget-mode") == 0 {
 			p.BadTarget = rapid.SampledFrom(badTargets).Draw(rt, "badtarget")
+		} else if rapid.IntRange(0, 4).Draw(rt, "hostform-mode") == 0 {
+			// round 6: a non-CONNECT request; its target is taken from Host (origin-form) or from the
+			// absolute URI, with or without a port. Only the extraction is this property's business
+			// (C16 owns the forwarding), so the relay always aborts such a request.
+			p.HostForm = rapid.SampledFrom([]string{"origin", "absolute"}).Draw(rt, "hostform")
+			p.HostVerb = rapid.SampledFrom([]string{"GET", "HEAD", "OPTIONS", "DELETE"}).Draw(rt, "hostverb")
+			if rapid.Bool().Draw(rt, "host-noport") {
+				p.Target.NoPort, p.Target.Port = true, 80
+			}
+			if p.HostForm == "absolute" && p.Target.Kind == "domain" {
+				// the URI grammar is narrower than the Host field's: letters, digits, '-', '.', '_' only
+				p.Target.Domain = blob(len(p.Target.Domain), uint64(len(p.Target.Domain))*977+uint64(p.Target.Port), alphaHTTP)
+				if _, err := netip.ParseAddr(p.Target.Domain); err == nil {
+					p.Target.Domain = "x" + p.Target.Domain[1:]
+				}
+			}
 		}
+	}
+	// round 6: the same HTTP proxy behind TLS
+	if http && rapid.IntRange(0, 2).Draw(rt, "tls-mode") == 0 {
+		genTLS(rt, &p)
 	}
 
 	// outcome of the onward connection
@@ -566,6 +661,10 @@ func genPlanOf(rt *rapid.T, protos []string) plan {
 		} else {
 			p.Code = rapid.Uint8Range(1, 255).Draw(rt, "code")
 		}
+	}
+
+	if p.HostForm != "" && !p.Abort {
+		p.Abort, p.Code = true, rapid.SampledFrom(namedFailureCodes).Draw(rt, "code")
 	}
 
 	// transport and traffic
@@ -602,11 +701,55 @@ func genPlanOf(rt *rapid.T, protos []string) plan {
 	for _, n := range p.S2C {
 		s2cTotal += n
 	}
-	if s2cTotal > 0 && p.grantExpected() && !p.Abort && p.Proto != "ssnone" {
+	if s2cTotal > 0 && p.grantExpected() && !p.Abort && p.Proto != "ssnone" && !p.TLS {
+		// (under TLS the success reply is a record of its own among handshake records: the write-index
+		// based glue device does not apply, and the client's TLS layer hands out one record per read)
 		p.Glue = rapid.Bool().Draw(rt, "glue")
 	}
 	return p
 }
+
+// UTF-8 common names (X.509 cannot carry arbitrary octets in a UTF8String).
+var sampleCNs = []string{"carol", "", "C", "ålice-ü", "用户", "name with spaces", "colon:in:name", "a@b.example", "CN=x,O=y", "*", "64-" + "cccccccccccccccccccccccccccccccccccccccccccccccccccccccccccccc", "long-" + "nnnnnnnnnnnnnnnnnnnnnnnnnnnnnnnnnnnnnnnnnnnnnnnnnnnnnnnnnnnnnnnnnnnnnnnnnnnnnnnnnnnnnnnnnnnnnnnnnnnnnnnnnnnnnnnnnnnnnnnnnnnn"}
+
+// genTLS draws the TLS class of an HTTP plan: {no client certificate wanted, RequireAndVerifyClientCert}
+// x client certificate {none, valid, untrusted}. Basic authentication (off / on with 0..4 users) and
+// everything else has been drawn already and combines freely.
+func genTLS(rt *rapid.T, p *plan) {
+	p.TLS = true
+	p.TLSName = rapid.SampledFrom(tlsServerNames).Draw(rt, "tls-name")
+	p.TLSFunc = rapid.Bool().Draw(rt, "tls-func")
+	p.TLSReq = rapid.IntRange(0, 2).Draw(rt, "tls-req") > 0
+	switch k := rapid.IntRange(0, 5).Draw(rt, "tls-cert"); {
+	case !p.TLSReq && k < 4:
+		p.TLSCert = ""
+	case k < 4:
+		p.TLSCert = "valid"
+	case k == 4:
+		p.TLSCert = "untrusted"
+		if !p.TLSReq {
+			p.TLSCert = "valid" // configured, but the server never asks for it
+		}
+	default:
+		p.TLSCert = ""
+	}
+	if p.TLSCert != "" {
+		switch k := rapid.IntRange(0, 3).Draw(rt, "tls-cn"); {
+		case k == 0 && len(p.Users) > 0 && utf8.ValidString(p.Users[0].U):
+			p.TLSCN = p.Users[0].U // the certificate names one user, the Basic credentials maybe another
+		case k == 1:
+			p.TLSCN = blob(rapid.SampledFrom([]int{1, 2, 8, 64, 65, 200}).Draw(rt, "tls-cn-len"), rapid.Uint64().Draw(rt, "tls-cn-seed"), alphaPrint)
+		default:
+			p.TLSCN = rapid.SampledFrom(sampleCNs).Draw(rt, "tls-cn-sample")
+		}
+	}
+	if p.Peer == "raw" {
+		p.TLS12 = rapid.IntRange(0, 3).Draw(rt, "tls12") == 0
+	}
+}
+
+// tlsRefuses tells whether the TLS layer of the server has to turn the client away.
+func (p plan) tlsRefuses() bool { return p.TLS && p.TLSReq && p.TLSCert != "valid" }
 
 // grantExpected tells whether the plan describes a CONNECT request that has to be granted. It only
 // decides whether the transport may hold back the success reply to merge it with the server's first
@@ -622,7 +765,7 @@ func (p plan) grantExpected() bool {
 		}
 		return p.WantPos >= 0 && (!p.SrvAuth || inTable(p.Users, p.Pres[0]))
 	case "http":
-		if p.BadTarget != "" {
+		if p.BadTarget != "" || p.tlsRefuses() {
 			return false
 		}
 		for _, c := range p.Pres {
